@@ -86,11 +86,11 @@ type vwsCause int
 func (c vwsCause) Error() string { return fmt.Sprintf("verif frame #%d", int(c)) }
 
 const (
-	vwsData    = iota // DATA on a stream
-	vwsHeaders        // HEADERS on a stream
-	vwsStreamWU       // WINDOW_UPDATE bound to a stream (stream != nil)
-	vwsCtl            // connection frame, stream == nil, StreamID()==0
-	vwsRST            // RST_STREAM, stream == nil, StreamID()!=0
+	vwsData     = iota // DATA on a stream
+	vwsHeaders         // HEADERS on a stream
+	vwsStreamWU        // WINDOW_UPDATE bound to a stream (stream != nil)
+	vwsCtl             // connection frame, stream == nil, StreamID()==0
+	vwsRST             // RST_STREAM, stream == nil, StreamID()!=0
 )
 
 var vwsKindName = [...]string{"DATA", "HEADERS", "SWU", "CTL", "RST"}
@@ -118,16 +118,16 @@ func (f *vwsFrame) String() string {
 }
 
 type vwsStream struct {
-	id      uint32
-	st      *stream
-	q       []*vwsFrame
-	open    bool
-	closed  bool
-	ended   bool  // a frame with END_STREAM has been pushed
-	win     int64 // model stream window
-	pri     PriorityParam
-	idleAdj bool // AdjustStream was called on the id before it was opened
-	idleMark int // value of hist.idleCreations at the first such call
+	id       uint32
+	st       *stream
+	q        []*vwsFrame
+	open     bool
+	closed   bool
+	ended    bool  // a frame with END_STREAM has been pushed
+	win      int64 // model stream window
+	pri      PriorityParam
+	idleAdj  bool // AdjustStream was called on the id before it was opened
+	idleMark int  // value of hist.idleCreations at the first such call
 
 	// C13 bookkeeping
 	wait, kmax int
@@ -146,7 +146,12 @@ type vwsParams struct {
 	bigWindows     bool
 	// op weights
 	wOpen, wClose, wAdjust, wData, wHeaders, wCtl, wWindow, wPop, wMaxFrame int
-	prio bool // run the RFC 9218 order / fairness oracles (C13)
+	prio                                                                    bool // run the RFC 9218 order / fairness oracles (C13)
+	// ctlRhythm: after the random part, keep every stream topped up with DATA and alternate
+	// "push c control frames, pop c+1 frames" for a fixed c per history, so that a stream frame
+	// is popped after every c control frames for a sustained stretch (fairness must not depend
+	// on how many control frames go out in between).
+	ctlRhythm bool
 }
 
 type vwsHist struct {
@@ -159,19 +164,19 @@ type vwsHist struct {
 	sc  *serverConn
 	log *vwsLog
 
-	connWin     int64
-	streams     map[uint32]*vwsStream
-	open        []uint32
-	closedIDs   []uint32
-	idleIDs     []uint32 // ids adjusted while idle and not (yet) opened
-	control     []*vwsFrame
-	nextClient  uint32
-	nextPush    uint32
-	nextFrame   int
-	maxStreams  int
-	urg         []uint8
-	aborted     bool
-	idleCreations int // ids that got their first AdjustStream while idle
+	connWin       int64
+	streams       map[uint32]*vwsStream
+	open          []uint32
+	closedIDs     []uint32
+	idleIDs       []uint32 // ids adjusted while idle and not (yet) opened
+	control       []*vwsFrame
+	nextClient    uint32
+	nextPush      uint32
+	nextFrame     int
+	maxStreams    int
+	urg           []uint8
+	aborted       bool
+	idleCreations int      // ids that got their first AdjustStream while idle
 	curSids       []uint32 // streams the scheduler call in progress is about
 	curCall       string
 	opSeq         atomic.Int64 // bumped right before every scheduler call (hang guard)
@@ -186,7 +191,7 @@ type vwsHist struct {
 
 	// statistics
 	nPops, nPopOK, nPopsAfterCloseQueued, nCloseQueued int
-	zeroReq                                               int
+	zeroReq                                            int
 
 	// C13
 	lastServed  [8]uint32 // per urgency: last served non-incremental stream (0 = none)
@@ -241,6 +246,7 @@ func (h *vwsHist) tail(n int) string {
 //     "corrupt-queue-after-close-rfc7540";
 //   - every stream concerned was opened after being prioritised while idle and at least
 //     MaxIdleNodesInTree newer idle ids were prioritised since: "open-stream-evicted-rfc7540".
+//
 // The plain key stays in the detail text.
 func (h *vwsHist) violation(key string, sids []uint32, f string, a ...any) {
 	plain := key
@@ -1049,6 +1055,27 @@ func (h *vwsHist) run() {
 	for i := 0; i < nops && !h.aborted; i++ {
 		h.step()
 	}
+	if h.p.ctlRhythm && !h.aborted {
+		c := []int{0, 1, 1, 1, 2, 3, 5}[h.rng.IntN(7)]
+		h.logf("rhythm: %d control frames between stream frames", c)
+		for round := 0; round < 60 && !h.aborted; round++ {
+			for i := 0; i < 3 && !h.aborted; i++ {
+				h.opPushData()
+			}
+			for i := 0; i < c && !h.aborted; i++ {
+				h.opPushControl()
+			}
+			for i := 0; i <= c && !h.aborted; i++ {
+				if !h.pop() {
+					break
+				}
+			}
+			if h.p.prio && !h.aborted {
+				h.prioRefresh()
+			}
+		}
+		h.r.Event("histories_with_control_rhythm", 1)
+	}
 	if !h.aborted && h.rng.IntN(10) < 7 {
 		h.drain()
 	}
@@ -1056,7 +1083,9 @@ func (h *vwsHist) run() {
 	h.r.Event("ops", int64(len(h.log.Ops)))
 }
 
-func (h *vwsHist) signature() string { return h.cfg.String() + "|" + h.log.Conn + "|" + strings.Join(h.log.Ops, ";") }
+func (h *vwsHist) signature() string {
+	return h.cfg.String() + "|" + h.log.Conn + "|" + strings.Join(h.log.Ops, ";")
+}
 
 // ---- RFC 9218 order / fairness oracles (C13) ----
 
